@@ -319,6 +319,23 @@ def make_mask_harness(n, chain):
                 res = cur[1:] if cur.value.ndim == 1 else cur
             for d, sn in zip(live, snaps):
                 ex.check(_ma_same(d, sn), f'{op}:earlier-datasets-unchanged')
+            if op != 'mask' and isinstance(res, Dataset):
+                # the result is the plain array operation on the cells that are not masked, and masked where the operand was
+                cd, cm = np.ma.getdata(cur.value), np.ma.getmaskarray(cur.value)
+                ce = np.ma.getdata(cur.error)
+                want_v, want_e, want_m = {'add_ds': (cd + 1., np.sqrt(ce ** 2 + 1.), cm), 'mul_ds': (cd * 2., None, cm),
+                                          'sub_c': (cd - 1.5, ce, cm), 'copy': (cd, ce, cm), 'squeeze': (np.squeeze(cd), np.squeeze(ce), np.squeeze(cm)),
+                                          'slice': ((cd[1:], ce[1:], cm[1:]) if cur.value.ndim == 1 else (cd, ce, cm))}[op]
+                shape_ok = np.shape(res.value) == np.shape(want_v) and np.shape(res.error) == np.shape(want_v)
+                ex.check(shape_ok, f'{op}:result-shape')
+                if shape_ok:
+                    rm = np.ma.getmaskarray(res.value)
+                    ex.check(np.array_equal(rm, want_m) and np.array_equal(np.ma.getmaskarray(res.error), want_m),
+                             f'{op}:result-masked-exactly-where-the-operand-was')
+                    keep = ~np.asarray(want_m, dtype=bool)
+                    ex.check(np.allclose(np.ma.getdata(res.value)[keep], np.asarray(want_v)[keep]), f'{op}:result-values')
+                    if want_e is not None:
+                        ex.check(np.allclose(np.ma.getdata(res.error)[keep], np.asarray(want_e)[keep]), f'{op}:result-errors')
             if not isinstance(res, Dataset) or res.value.ndim != 1:
                 return
             live.append(res)
